@@ -439,7 +439,11 @@ theorem readKey_normal (ops : KeyOps K) (hc : KeyCodec ops) (tap hash : Bool) (s
               split at hkey
               · -- a raw 40-character hash, taken verbatim
                 rename_i h40
-                simp only [Option.some.injEq, Prod.mk.injEq] at hkey
+                -- (fix keyhash-raw-hex) … and only when `unhexlify` takes it
+                cases hhex : unhexlify kt with
+                | none => simp [hhex] at hkey
+                | some hb =>
+                simp only [hhex, Option.some.injEq, Prod.mk.injEq] at hkey
                 obtain ⟨rfl, rfl⟩ := hkey
                 refine ⟨⟨horigin.1, ⟨kt, rfl, ?_, ?_, hdel, ?_⟩, by simp, hderiv⟩, fun e => by cases e⟩
                 · intro ho
@@ -448,7 +452,7 @@ theorem readKey_normal (ops : KeyOps K) (hc : KeyCodec ops) (tap hash : Bool) (s
                   · exact e
                   · omega
                 · intro e; subst e; simp at h40
-                · simp [parseKeyHashText, h40]
+                · simp [parseKeyHashText, h40, hhex]
               · rename_i h40
                 obtain ⟨kt', t1, t2, t3, t4, t5, t6, _, t8, t9, t10⟩ :=
                   parseKeyText_normal ops hc tap kt kv xo hdel hkey origin derivation
